@@ -408,9 +408,13 @@ def i_configs(tier):
 
     if tier == "quick":
         return [dict(cf("block", "1.1", True, 2, "A"), frames=2), cf("block", "1.1", 3, -1, "D", "fixed-terminal"),
-                cf("kitty", "1.1+L", True, 2, "D", "fixed-terminal"), cf("iterm2", "1.1+W", 4, -1, "A", "fixed-terminal")]
+                cf("kitty", "1.1+L", True, 2, "D", "fixed-terminal"), cf("iterm2", "1.1+W", 4, -1, "A", "fixed-terminal"),
+                # padded frames with non-default alignment on both axes (the re-render paths format again)
+                dict(cf("block", "<4._3", True, 2, "A"), frames=2), dict(cf("block", ">4.^3", 2, -1, "D"), frames=2)]
     # the full alphabet (3 sizes, every seek) costs ~130k transitions of ~2 ms: block style only
-    out = [cf("block", "1.1", True, 2, "A", "full"), cf("block", "1.1", True, -1, "D", "full")]
+    out = [cf("block", "1.1", True, 2, "A", "full"), cf("block", "1.1", True, -1, "D", "full"),
+           cf("block", "<4._3", True, 2, "A"), cf("block", ">4.^3", True, -1, "D"), cf("kitty", "<4.^3+L", 3, 3, "A"),
+           cf("iterm2", ">4._3+W", True, 2, "D")]
     for style, specs in (("block", ["1.1"]), ("kitty", ["1.1+L", "1.1+W"]), ("iterm2", ["1.1+L", "1.1+W"])):
         for spec in specs:
             for cached, repeat, size0 in ((True, 2, "A"), (True, -1, "D"), (3, 3, "A"), (4, 2, "D"), (2, 2, "A"),
